@@ -461,6 +461,36 @@ PROPS = {
         "level_note": "Trusted: gate wrapper and launch-order attribution of gate events (harness waits for each analysis' first call before sending further commands).",
         "technique": "stateful property-based testing (rapid) with an injected gated search (harness-owned schedule), history invariant after every step",
     },
+    "C17": {
+        "title": "transposition table under concurrent use",
+        "run": "^TestC17_",
+        "level": "exploration",
+        "race": True,
+        "race_is_violation": True,
+        "race_filter": "transposition.go",
+        "shards": 8,
+        "gomaxprocs": [16, 4, 2, 16, 8, 16, 3, 16],
+        "timeout": 900,
+        "thorough_scale": 8,
+        "thorough_timeout": 3000,
+        "rule": "C17/concurrent (race-instrumented binary): generated programs for 2-16 goroutines over 1-6 hashes that collide in "
+                "1-4 slots of real tables with 1, 2, 4, 8, 64 and 32768 slots; operations Write (payload = tagged function of "
+                "(writer, sequence number, hash) over bound, depth, score, from, to, promotion; drawn depth and ply drive the "
+                "replacement value), Read, Used; each program runs 1-8 times on fresh tables; most programs add a monitor goroutine "
+                "per slot. Oracle: every successful Read(h) returns a tuple that ONE store for h wrote (tag lookup: no mixture, no "
+                "foreign hash); per slot the replacement value seen by its monitor never decreases; after all goroutines joined "
+                "Used() is in [0,1] and Used() x slots equals the number of distinct slots with an accepted store; and the race "
+                "detector reports nothing with a frame in transposition.go. C17/sequential: single-goroutine programs against an "
+                "exact model of the replacement policy (accept iff resident value <= new value), Read and Used. Non-trivial = "
+                "distinct programs in which at least two goroutines write the same hash AND two write different hashes of one "
+                "slot (concurrent); programs that leave an entry (sequential). evaluations = programs (x rounds).",
+        "assumptions": COMMON_ASSUMPTIONS + ["the interleaving is not owned by the harness (stress + race detector + history invariants); a yield hook inside the CAS loop was deliberately not added",
+                                             "table sizes >= 32 bytes"],
+        "level_text": "Stress exploration under the race detector: ~6k concurrent programs x up to 8 rounds per quick run with "
+                      "tagged payloads and per-slot monitors, plus 20k sequential programs against an exact model.",
+        "level_note": "Trusted: tag function and the sequential model in c17_test.go; Go race detector.",
+        "technique": "property-based generation of concurrent programs (rapid) + race detector + history invariants over tagged payloads; sequential model-based check",
+    },
 }
 
 # Properties not claimed, with the reason (kept current).
